@@ -170,6 +170,10 @@ def _impl_basis(c):
     f = {'legendre': flegendre, 'chebyshev': fchebyshev, 'chebyshev_split': fchebyshev_split, 'poly': fpoly}[c['func']]
     if c['form'] == 'pyfloat':
         x = float(c['x'][0])
+    elif c['form'] == 'pyint':       # integer abscissae -1, 0, 1: the result is a float array all the same
+        x = int(c['x'][0])
+    elif c['form'] == 'intarray':
+        x = np.array([int(v) for v in c['x']], dtype=np.int64)
     elif c['form'] == 'npfloat':
         x = np.float64(c['x'][0])
     elif c['form'] == '0d':
@@ -259,7 +263,7 @@ def _impl_xy(c, t=None):
 # ------------------------------------------------------------------ model lines
 def _line_basis(c):
     l = {'p': 'C13', 'op': 'basis', 'func': c['func'], 'm': c['m']}
-    if c['form'] == 'array':
+    if c['form'] in ('array', 'intarray'):
         l['xs'] = fb(c['x'])
     else:
         l['x'] = core.f2b(c['x'][0])
@@ -335,6 +339,9 @@ def _gen_basis(ctx):
             cases.append({'stream': 'basis', 'func': func, 'm': m, 'form': 'array', 'x': sp})
             for form in ('pyfloat', 'npfloat', '0d'):
                 cases.append({'stream': 'basis', 'func': func, 'm': m, 'form': form, 'x': [rng.choice(sp + [rng.uniform(-1, 1)])]})
+            cases.append({'stream': 'basis', 'func': func, 'm': m, 'form': 'pyint', 'x': [float(rng.choice([-1, 0, 1]))]})
+            if m % 3 == 0:
+                cases.append({'stream': 'basis', 'func': func, 'm': m, 'form': 'intarray', 'x': [-1.0, 0.0, 1.0, 0.0]})
     for _ in range(ctx.n(400, 20000)):
         func = rng.choice(FUNCS)
         m = rng.choice([1, 2, 3, 4, 5, 6, 7, 8, 9, 10, 11, 12, 12, 13, 14])
@@ -632,8 +639,8 @@ def _basis(ctx, cases, oracle_only=False):
             if bad.any():
                 k, i = [int(v) for v in np.argwhere(bad)[0]]
                 ctx.violate('basis:%s:value' % c['func'], 'row %d at x=%r: %r, textbook %r' % (k, c['x'][i], got[k, i], want[k, i]),
-                            dict(c, x=[c['x'][i]], form='array' if c['form'] == 'array' else c['form']))
-        if c['form'] != 'array':
+                            dict(c, x=[c['x'][i]], form=c['form']))
+        if c['form'] not in ('array', 'intarray'):
             arr = _impl_basis(dict(c, form='array'))
             if arr != impl and not (('ok' in arr) and same_list(flat(arr['ok']), flat(impl['ok']))):
                 ctx.violate('basis:%s:scalar-vs-array' % c['func'], 'scalar %s and 1-element array %s differ' % (impl, arr), c)
